@@ -62,6 +62,7 @@ Step(e) ==
     \/ e.op = "inorder"  /\ InOrderOk(e.in, e.ok, e.out) /\ Pure
     \* 5 async blob store at quiescence
     \/ e.op = "as_quiesce" /\ AsQuiesce(e.puts, e.removed, e.final, e.contains, e.reads, e.gb, e.len) /\ Pure
+    \/ e.op = "as_quiesce_c" /\ AsQuiesceCompact(e.ids, e.vs, e.fv, e.gbok, e.gbv, e.rv, e.rw, e.len) /\ Pure
     \/ e.op = "note"     /\ Pure
 
 TraceNext ==
